@@ -16,3 +16,9 @@ Theorem C10_late_registration_holds : C10_late_registration. Proof. exact c10_la
 Print Assumptions C10_late_registration_holds.
 Theorem C10_late_registration_any_id_refuted : ~ C10_late_registration_any_id. Proof. exact c10_late_registration_any_id_refuted. Qed.
 Print Assumptions C10_late_registration_any_id_refuted.
+(* run level (Spec/StatementsLate.v) *)
+Require Import Boario.Spec.StatementsLate Boario.Proofs.C10LateRunProofs.
+Theorem C10_late_run_holds : C10_late_run. Proof. exact c10_late_run. Qed.
+Print Assumptions C10_late_run_holds.
+Theorem C10_late_creation_holds : C10_late_creation. Proof. exact c10_late_creation. Qed.
+Print Assumptions C10_late_creation_holds.
